@@ -67,6 +67,9 @@ def cases(tier):
     for ct in ((1,) if tier == 'quick' else (1, 2)):
         for octet in range(5):
             out.append(dict(kind='structflip', crc=ct, octet=octet))
+            if tier != 'quick':
+                out.append(dict(kind='structflip', crc=ct, octet=octet, blk='primary'))
+                out.append(dict(kind='structflip', crc=ct, octet=octet, blk='payload'))
     return out
 
 
@@ -222,18 +225,22 @@ def h_structflip(c, case, tier):
     pri = dict(flags=0, crc_type=ct, destination=dest, source='dtn://src/app', report_to='dtn:none',
                create_ts=[2 ** 33, 5], lifetime=3600000)
     hop = dict(type=10, num=2, flags=0, crc_type=ct, data=rfc9171.enc([30, 3]))
-    blocks = [hop, dict(type=200, num=3, flags=0, crc_type=0, data=b'\x01\x02\x03'),
-              dict(type=1, num=1, flags=0, crc_type=0, data=b'\x00\x01\x02\x03')]
+    which = case.get('blk', 'hop')
+    payblk = dict(type=1, num=1, flags=0, crc_type=ct if which == 'payload' else 0, data=b'\x00\x01\x02\x03')
+    blocks = [hop, dict(type=200, num=3, flags=0, crc_type=0, data=b'\x01\x02\x03'), payblk]
     good = bytes(rfc9171.sealed_bundle(pri, blocks))
-    hop_enc = bytes(rfc9171.enc(rfc9171.seal_canonical(hop)))
-    start = good.index(hop_enc)
+    if which == 'primary':
+        start = 1                     # right behind the 0x9f of the bundle array
+    else:
+        tgt_enc = bytes(rfc9171.enc(rfc9171.seal_canonical(hop if which == 'hop' else payblk)))
+        start = good.index(tgt_enc)
     pos = start + case['octet']
     pat = 1 + c.choose(255, 'xor-pattern')
     bad = bytearray(good)
     bad[pos] ^= pat
     w.recv(bytes(bad))
     w.run_idle(20)
-    tag = 'crc%d,octet=%d,xor=%02x' % (ct, case['octet'], pat)
+    tag = ('crc%d,octet=%d,xor=%02x' % (ct, case['octet'], pat)) if which == 'hop' else ('%s,crc%d,octet=%d,xor=%02x' % (which, ct, case['octet'], pat))
     c.prove(len(w.delivered) == 0 and len(w.sent) == 0 and len(w.agent._seen_bundle_ident) == 0,
             'structurally-corrupted-block-dropped[%s]' % tag,
             detail=dict(delivered=len(w.delivered), sent=len(w.sent), was=good[pos], now=bad[pos]))
